@@ -2,6 +2,7 @@
 
 import copy
 import random
+import re
 
 from checks import c02
 from checks import c10
@@ -30,16 +31,46 @@ def _all_sim_tasks(prog):
                 yield w, t
 
 
+def call_paths(prog):
+    """workflow name -> list of (tag path, reached through with-items)"""
+    by_name = dict((w['name'], w) for w in prog['workflows'])
+    by_short = dict((w.get('short', w['name']), w)
+                    for w in prog['workflows'])
+    out = {}
+
+    def walk(w, path, wi, depth):
+        out.setdefault(w['name'], []).append((path, wi))
+        if depth > 4:
+            return
+        for t in w['tasks']:
+            b = t.get('body') or {}
+            if b.get('kind') != 'wf':
+                continue
+            c = by_name.get(b.get('wf')) or by_short.get(b.get('wf'))
+            if c is None:
+                continue
+            walk(c, '%s.%s' % (path, t['name']),
+                 wi or bool(t.get('with_items')), depth + 1)
+
+    main = prog['workflows'][0]
+    walk(main, main['name'], False, 0)
+    return out
+
+
 def make_case(seed, tier):
     rng = random.Random(seed)
+    hold = False
     for attempt in range(40):
+        want_nested = rng.random() < 0.4
         case, rng2 = progcase.program_case(
             seed * 43 + attempt, FEATS, max_tasks=rng.choice([3, 4, 5]),
-            p=rng.choice([0.3, 0.5]), p_err_choices=(0.0,))
+            p=rng.choice([0.3, 0.5]), p_err_choices=(0.0,),
+            force=('subwf',) if want_nested else ())
         cands = list(_all_sim_tasks(case['prog']))
         if not cands:
             continue
-        w, t = rng.choice(cands)
+        nested = [c for c in cands if c[0].get('path_input')]
+        w, t = rng.choice(nested if (want_nested and nested) else cands)
         # no on-error handler for the failing task: the workflow must fail
         t.pop('on_error', None)
         t.pop('on_complete', None)
@@ -53,13 +84,38 @@ def make_case(seed, tier):
                 del t['on_skip']
         if rng.random() < 0.4:
             t['publish_on_skip'] = {'sk': ['const', 'skipped']}
+        # removing the routes must not leave a join without inbound tasks
+        routed = set()
+        for t2 in w['tasks']:
+            for cl in ('on_success', 'on_error', 'on_complete', 'on_skip'):
+                for en in (t2.get(cl) or []) + (
+                        (w.get('task_defaults') or {}).get(cl) or []):
+                    routed.add(en.get('to'))
+        if any(t2.get('join') is not None and t2['name'] not in routed
+               for t2 in w['tasks']):
+            continue
         case['defs'] = gen.render_program(case['prog'])
         n_items = t['with_items']['n'] if t.get('with_items') else 1
         if n_items == 0:
             continue
         tagp = '%s.%s' % (w['name'], t['name'])
+        hold = False
         if w.get('path_input'):
-            continue   # nested tag paths depend on the call path
+            # the failing task sits in a sub-workflow: its action tag is
+            # the call path; only a single call site outside with-items
+            ps = call_paths(case['prog']).get(w['name']) or []
+            if len(ps) != 1 or ps[0][1]:
+                continue
+            tagp = '%s.%s' % (ps[0][0], t['name'])
+            main = case['prog']['workflows'][0]
+            if rng.random() < 0.5 and not main.get('task_defaults') and \
+                    not any(x['name'] == 'hold' for x in main['tasks']):
+                # another branch of the root keeps it RUNNING while the
+                # failed task is rerun
+                main['tasks'].append({'name': 'hold',
+                                      'body': {'kind': 'async'}})
+                hold = True
+                case['defs'] = gen.render_program(case['prog'])
         fail_item = rng.randrange(n_items)
         retry = t.get('retry') or (w.get('task_defaults') or {}).get('retry')
         n_fail = 1 + (retry['count'] if retry and
@@ -72,8 +128,8 @@ def make_case(seed, tier):
         case['fail'] = {'wf': w['name'], 'task': t['name'],
                         'item': fail_item, 'n_fail': n_fail}
         rr, rrec0 = progcase.reference(case)
-        occ = [k for k in rrec0['tasks'] if k.endswith('/%s#0' % t['name'])
-               or ('/%s#' % t['name']) in k]
+        occ = [k for k in rrec0['tasks'] if re.sub(
+            r'(~\d+|#\d+|\[\d+\.\d+\])', '', k).replace('/', '.') == tagp]
         if rr.exact and not rr.racy_tasks and rr.state == 'ERROR' and \
                 len(occ) == 1 and 'multi_occurrence' not in \
                 progcase.case_tags(case):
@@ -87,22 +143,29 @@ def make_case(seed, tier):
     tname = case['fail']['task']
     ops = []
     base = 500
+    if hold:
+        case['async_delays'] = {'main.hold': 400.0}
+        case['hold'] = True
     if kind in ('rerun', 'rerun2', 'rerun_twice'):
         ops.append({'op': 'rerun', 'reset': rng.random() < 0.5,
-                    'target': {'state': 'ERROR', 'name': tname},
+                    'target': {'state': 'ERROR', 'name': tname,
+                               'wf': case['fail']['wf']},
                     'at_step': base})
         if kind == 'rerun2':
             # a second request while the first is in flight
             ops.append({'op': 'rerun', 'reset': rng.random() < 0.5,
-                        'target': {'state': 'ERROR', 'name': tname},
+                        'target': {'state': 'ERROR', 'name': tname,
+                                   'wf': case['fail']['wf']},
                         'at_step': base})
         if kind == 'rerun_twice':
             ops.append({'op': 'rerun', 'reset': True,
-                        'target': {'state': 'ERROR', 'name': tname},
+                        'target': {'state': 'ERROR', 'name': tname,
+                                   'wf': case['fail']['wf']},
                         'at_step': base + 400})
     elif kind == 'skip':
         ops.append({'op': 'skip', 'target': {'state': 'ERROR',
-                                             'name': tname},
+                                             'name': tname,
+                                             'wf': case['fail']['wf']},
                     'at_step': base})
     else:
         ops.append({'op': rng.choice(['rerun', 'skip']),
@@ -110,6 +173,11 @@ def make_case(seed, tier):
                                                     'RUNNING']),
                                'index': rng.randint(0, 2)},
                     'at_step': rng.choice([base, rng.randint(5, 60)])})
+    if hold:
+        # while the root is still RUNNING because of the other branch
+        for k, o in enumerate(ops):
+            if o['at_step'] >= base:
+                o['at_time'] = 150.0 + 60.0 * k + (o['at_step'] - base) / 4.0
     case['ops'] = ops
     case['kind'] = kind
     case['settle'] = 30
@@ -219,7 +287,9 @@ def evaluate(case, res):
             continue
         if t['name'] != fail.get('task'):
             continue
-        wfast = case['prog']['workflows'][0]
+        wfast = ([w for w in case['prog']['workflows']
+                  if w['name'] == fail.get('wf')] or
+                 [case['prog']['workflows'][0]])[0]
         if (wfast.get('task_defaults') or {}).get('retry'):
             continue
         n_acts = sum(1 for a in snap['action'].values()
@@ -256,6 +326,33 @@ def evaluate(case, res):
                             o['result'][2][:200]), sig))
     if out:
         return out
+    # a join put back to WAITING by a route that reaches it after it had
+    # already failed or run (open finding F3)
+    for e in res.recorder.events:
+        if e.table == trace.TASK and e.committed and \
+                e.vals.get('state') == 'WAITING' and \
+                e.old.get('state') not in (None, 'WAITING') and \
+                'reset_by_late_route' not in sig:
+            sig += ' reset_by_late_route'
+    # --- the run finishes: an accepted rerun / skip never leaves the tree
+    # unfinished with nothing pending
+    if ok_ops and not any(o['result'] and o['result'][0] == 'exc'
+                          for o in res.ops_log):
+        stuck = [lab.any(w['id']) + '=' + w['state']
+                 for w in snap['wf'].values()
+                 if w['state'] not in trace.TERMINAL]
+        stuck += [lab.any(t['id']) + '=' + t['state']
+                  for t in snap['task'].values()
+                  if t['state'] in ('RUNNING', 'WAITING', 'DELAYED', 'IDLE')
+                  and (snap['wf'].get(t['workflow_execution_id']) or {}).get(
+                      'state') not in trace.TERMINAL]
+        if stuck:
+            out.append(('C12.outcome_vs_ref',
+                        'the run did not finish after the accepted %s: %s'
+                        % ('/'.join(sorted(set(o['op']['op']
+                                               for o in ok_ops))),
+                           sorted(stuck)[:6]), sig + ' not_finished'))
+            return out
     # --- final outcome vs the reference "as if the new result had been the
     # first" (plain failing task, legal single rerun / skip)
     kind = case.get('kind')
@@ -264,6 +361,16 @@ def evaluate(case, res):
                  if w['name'] == fail['wf']][0]
         tast = [t for t in wfast['tasks'] if t['name'] == fail['task']][0]
         if tast.get('with_items') or tast.get('join') is not None:
+            return out
+        # "as if the task had produced its new result the first time" is
+        # only defined when the failed run stopped at the failure: when an
+        # error route of the failed run (a downstream join failing and its
+        # on-error / on-complete clause, an on-error of an enclosing task)
+        # has already executed tasks, those tasks stay executed
+        rr0, rrec0 = progcase.reference(case)
+        if any(t.get('state') == 'ERROR' and t.get('has_next')
+               for t in rrec0['tasks'].values()):
+            res.extra['error_routes_ran'] = True
             return out
         c2 = copy.deepcopy(case)
         key = '%s/%s' % (fail['wf'], fail['task'])
@@ -316,6 +423,11 @@ def probes(case, res):
                        else 'http%s' % r[1])
         p[k] = p.get(k, 0) + 1
     p['ref_exact'] = int(bool(res.extra.get('ref_exact')))
+    p['nested_fail'] = int(bool((case.get('fail') or {}).get('wf')
+                                and case['fail']['wf'] !=
+                                case['prog']['workflows'][0]['name']))
+    p['hold_branch'] = int(bool(case.get('hold')))
+    p['error_routes_ran'] = int(bool(res.extra.get('error_routes_ran')))
     p['final_success'] = int(any(
         w['state'] == 'SUCCESS' and not w['task_execution_id']
         for w in res.snap['wf'].values()))
